@@ -631,7 +631,7 @@ class Universe:
             if r.random() < 0.25:
                 cparams.append({'name': 'N', 'prim': 'usize', 'default': r.choice([None, 2])})
             if r.random() < 0.15:
-                cparams.append({'name': 'K', 'prim': r.choice(['u8', 'u16', 'i32', 'bool', 'char', 'u64']), 'default': None})
+                cparams.append({'name': 'K', 'prim': r.choice(['u8', 'u16', 'i32', 'bool', 'char', 'u64'] + (['u128', 'i128'] if self.relaxed else [])), 'default': None})
             if tparams and any(p.get('default') for p in tparams):
                 for c in cparams:
                     if c['default'] is None: c['default'] = 1 if c['prim'] != 'bool' and c['prim'] != 'char' else (1 if c['prim'] == 'bool' else 0x41)
@@ -696,6 +696,12 @@ class Universe:
             # a trait bound in the where clause, on any parameter (all arguments and their ε-copy types are Clone)
             p = r.choice(tparams)
             where.append('%s: %s' % (p['name'], r.choice(['epsh::Mark', 'Clone', 'Clone + epsh::Mark'])))
+            if r.random() < 0.5:
+                # a second, separate predicate on the same parameter (and one on another parameter in between)
+                if len(tparams) > 1:
+                    q = [x for x in tparams if x is not p][0]
+                    where.append('%s: epsh::Mark' % q['name'])
+                where.append('%s: %s' % (p['name'], r.choice(['PartialEq', 'core::fmt::Debug'])))
         return Def(name, is_enum, copy, reprs, align_attr, tparams, cparams, variants, where)
 
     def inst(self, d, depth=1):
@@ -851,6 +857,18 @@ def stress_defs(prefix='K'):
     d5 = Def(prefix + 'D5', False, 'none', [], 1, [{'name': 'A', 'bounds': [], 'default': None, 'role': 'eps'}], [],
              [(prefix + 'D5', 'named', [('s', ('ty', Str())), ('a', ('param', 0)), ('t', P('u8'))])])
     defs.append(d5)
+    # deep-copy items that serialize to zero bytes; a single-field deep newtype of a zero-copy array (its items record
+    # one leaf row each, back to back); two const parameters (values are hashed before names); a 128-bit const parameter
+    u0 = Def(prefix + 'U0', False, 'deep', [], 1, [], [], [(prefix + 'U0', 'unit', [])])
+    defs.append(u0)
+    n1 = Def(prefix + 'N1', False, 'deep', [], 1, [], [], [(prefix + 'N1', 'tuple', [('f0', A(P('u8'), 4))])])
+    defs.append(n1)
+    c2 = Def(prefix + 'C2', False, 'none', [], 1, [], [{'name': 'A', 'prim': 'u8', 'default': None}, {'name': 'B', 'prim': 'u16', 'default': None}],
+             [(prefix + 'C2', 'named', [('x', ('ty', Str())), ('y', A(P('u16'), 2))])])
+    defs.append(c2)
+    c3 = Def(prefix + 'C3', False, 'none', [], 1, [], [{'name': 'W', 'prim': 'u128', 'default': None}],
+             [(prefix + 'C3', 'named', [('x', P('u32'))])])
+    defs.append(c3)
     return defs
 
 
